@@ -9,3 +9,5 @@ import DateutilVerif.Properties.C08
 #print axioms C08.parse_J_rule
 #print axioms C08.parse_N_rule
 #print axioms C08.parse_rule_hour
+#print axioms C08.range_transitions
+#print axioms C08.tzstr_posix_partial
